@@ -1,9 +1,10 @@
 import JL.Generated.Fns
+import JL.Lemmas.TieAuto
 /-! tie: `strict_eq`, as translated from the crate's current source, is the model's function - for every input -/
 namespace JL.Tie
 open JL
 
 theorem strict_eq (a b : Json) : Gen.strict_eq a b = JsOp.strictEq a b := by
-  cases a <;> cases b <;> simp [Gen.strict_eq, JsOp.strictEq, rs]
+  cases a <;> cases b <;> tie_close [Gen.strict_eq, JsOp.strictEq]
 
 end JL.Tie
